@@ -193,7 +193,11 @@ def run(ctx: Ctx):
            "no path of update_for_epoch deletes superseded checkpoints", rel, upd.line)
 
     # ---- O4 deletion set provenance ------------------------------------------------
-    _o4(ctx, upd, rd, prov, pm, where, rel)
+    # (which files remain after every completed update is decided by value - the checkpoint table, O13; how the deletion set is put
+    #  together is read from the code only when the update is outside the interpreted fragment)
+    from . import ckpt_table as CT
+    if not CT.check(ctx, "G10", "O13"):
+        _o4(ctx, upd, rd, prov, pm, where, rel)
     # the 'nothing to delete' branch is decided by the best epoch AFTER this update: only if the previous epoch is (still) the best
     # are its files the best checkpoint. Tested on the best epoch from before the update, two improvements in a row leave the
     # previous epoch's files - neither last nor best any more - on disk for ever
@@ -348,6 +352,10 @@ def _classify_collision(v: ast.AST, test: ast.AST, rd: ReachingDefs, prov: Prov)
     # any(os.path.exists(p) for p in (a, b))
     if isinstance(v, ast.Call) and call_name(v) == "any" and len(v.args) == 1 and isinstance(v.args[0], (ast.GeneratorExp, ast.ListComp)) \
             and isinstance(v.args[0].elt, ast.Call) and call_name(v.args[0].elt) == "os.path.exists":
+        return ("exists", u(test))
+    # any(map(os.path.exists, (a, b)))
+    if isinstance(v, ast.Call) and call_name(v) == "any" and len(v.args) == 1 and isinstance(v.args[0], ast.Call) and call_name(v.args[0]) == "map" \
+            and len(v.args[0].args) == 2 and u(v.args[0].args[0]) == "os.path.exists":
         return ("exists", u(test))
     return ("other", u(test))
 
@@ -653,8 +661,6 @@ def _o6(ctx, rel):
                    f"{sorted(DESIGNATED)}", rel, c.lineno, sample=dict(function=f.qualname, call=u(c)[:80]))
     col.floor("write_primitives", nprim, 3)
     history_header_rule(ctx, "O6")
-    from . import ckpt_table as CT
-    CT.check(ctx, "G10", "O13")
 
 
 def history_header_rule(ctx, clause: str, rule: str = "G10"):
@@ -882,10 +888,10 @@ def _mutants():
           "if save_info_first:\n    self.save_info_to_hist(info)\ntry:",
           "self._clean_up_files(last_model_pth, last_optim_pth)\nif save_info_first:\n    self.save_info_to_hist(info)\ntry:",
           "G10/O3", 0),
-        M("drop-minus-new-paths", T, "clean_up -= {model_pth, optim_pth}", "pass", "cleanup-minus-new-paths"),
+        M("drop-minus-new-paths", T, "clean_up -= {model_pth, optim_pth}", "pass", "checkpoint-table"),
         M("drop-best-guard", T,
           "if last_best != cur_best:\n    clean_up |= {last_best_model_pth, last_best_optim_pth}",
-          "clean_up |= {last_best_model_pth, last_best_optim_pth}", "cleanup-prev-best-guard"),
+          "clean_up |= {last_best_model_pth, last_best_optim_pth}", "checkpoint-table"),
         M("delete-current-best", T,
           "clean_up |= {last_best_model_pth, last_best_optim_pth}",
           "clean_up |= {best_model_pth, best_optim_pth}", "G10/O4"),
@@ -919,7 +925,7 @@ def _mutants():
           "if not save_info_first:\n    self.save_info_to_hist(info)", "self.save_info_to_hist(info)", "G10/O1", 0),
         M("last-best-after-cache-update", T,
           "last_best_info = self.get_info(last_best)", "last_best_info = self.get_info(self.get_best_epoch(best_is_train))",
-          "G10/O4"),
+          "checkpoint-table"),
         # twins
         M("twin:rename-local", T, "save_info_first", "hist_first", "", -1, twin=True),
         M("twin:rename-last-model-pth", T, "last_model_pth", "prev_model_pth", "", -1, twin=True),
